@@ -419,6 +419,10 @@ func (env *specEnv) call(e *ast.CallExpr) Val {
 	fun := ast.Unparen(e.Fun)
 	// generic instantiation f[T](...)
 	if ix, ok := fun.(*ast.IndexExpr); ok {
+		if id, isID := ix.X.(*ast.Ident); isID && id.Name == "verif_ptr" {
+			// ptr[T](n): the reference recorded by a ghost counter (lastres/lastarg), typed as *T
+			return Val{ts: []Term{env.eval(e.Args[0]).ts[0]}}
+		}
 		if id, isID := ix.X.(*ast.Ident); isID && id.Name == "verif_istype" {
 			// istype[T](x): the dynamic type of interface value x is T (T concrete) / implements T (T interface)
 			t := env.typeOf(ix.Index)
@@ -500,6 +504,21 @@ func (env *specEnv) call(e *ast.CallExpr) Val {
 				cs = append(cs, eq(a.ts[i], b.ts[i]))
 			}
 			return Val{ts: []Term{and(cs...)}}
+		case "verif_lastresn":
+			tv := env.info.Types[e.Args[0]]
+			iv := env.info.Types[e.Args[1]]
+			if tv.Value == nil || iv.Value == nil {
+				return env.fail(e, "lastresn needs constant name and index")
+			}
+			cn := strings.Trim(tv.Value.ExactString(), `"`)
+			key := "$res:" + cn
+			if iv.Value.ExactString() != "0" {
+				key = fmt.Sprintf("$res:%s:%s", cn, iv.Value.ExactString())
+			}
+			x.regKey(key, "Int")
+			// ghost counters are read in the state the clause is evaluated in, even under old(): their entry
+			// values are 0 / unset and of no use
+			return Val{ts: []Term{x.hget(env.heap, key)}}
 		case "verif_calls", "verif_lastarg", "verif_lastres":
 			tv := env.info.Types[e.Args[0]]
 			if tv.Value == nil {
@@ -518,7 +537,9 @@ func (env *specEnv) call(e *ast.CallExpr) Val {
 				key = fmt.Sprintf("$arg:%s:%s", cn, iv.Value.ExactString())
 			}
 			x.regKey(key, "Int")
-			return Val{ts: []Term{x.hget(env.h(), key)}}
+			// ghost counters are read in the state the clause is evaluated in, even under old(): their entry
+			// values are 0 / unset and of no use
+			return Val{ts: []Term{x.hget(env.heap, key)}}
 		case "verif_fresh":
 			// the reference was allocated during the call (above the allocation top at entry)
 			x.regKey(keyAlloc, "Int")
